@@ -1022,10 +1022,11 @@ def run(ctx: Ctx, replay=None) -> int:
     ctx.assumptions = ["circuits over each adapter's vocabulary; UnitaryMatrix on ≤ 4 qubits; dense comparison on ≤ 4 qubits, structural (relabelling) comparison "
                        "on a 70-qubit register"]
     rows = gen(ctx)
-    ok = ctx.prove(["QuriVerif.Props.C03"], ["QuriVerif.Props.C03", "QuriVerif.Generated.C03Adapters"])
+    ok = ctx.prove(["QuriVerif.Props.C03", "QuriVerif.Props.C03Lift"], ["QuriVerif.Props.C03", "QuriVerif.Props.C03Lift", "QuriVerif.Generated.C03Adapters"])
     if ok:
         names = [f"QV.Props.C03.{n}" for _, n, _ in ctx.count_obligations(["QuriVerif.Props.C03"])]
-        ctx.audit(names, ["QuriVerif.Props.C03"])
+        names += [f"QV.Props.C03Lift.{n}" for _, n, _ in ctx.count_obligations(["QuriVerif.Props.C03Lift"])]
+        ctx.audit(names, ["QuriVerif.Props.C03", "QuriVerif.Props.C03Lift"])
         for r in rows:
             ctx.case(("row", r["backend"], r["kind"]), sample=r if len(ctx.samples) < 4 else None)
             ctx.traces += 1
